@@ -100,6 +100,9 @@ pub enum Op {
     Remove(T, String),
     Take(T, String),
     Clear,
+    /// hot front-ends only: the source announces a change of `<id>.t` (content unchanged) and the
+    /// reloads it triggers are awaited; a no-op on the other front-ends
+    Notify(String),
 }
 
 #[derive(Debug, Clone, Serialize, Deserialize)]
@@ -115,6 +118,9 @@ pub struct Case {
     /// extra empty directories
     dirs: Vec<String>,
     ops: Vec<Op>,
+    /// CPUs visible while the AssetCache front-ends are constructed (0 = unchanged); decides the shard count
+    #[serde(default)]
+    cpus: u8,
 }
 
 // ---------------------------------------------------------------------------
@@ -254,7 +260,13 @@ impl Model<'_> {
                 self.map.clear();
                 Obs::Unit
             }
+            Op::Notify(_) => Obs::Unit,
         }
+    }
+
+    /// No entry whose reload recomputes its value from the cache is present.
+    fn only_plain_entries(&self) -> bool {
+        self.map.keys().all(|(t, _)| matches!(t, T::A1 | T::A2 | T::S1))
     }
 }
 
@@ -347,14 +359,12 @@ macro_rules! direct_apply {
             Op::LoadOwned(T::A2, id) => c.load_owned::<A2>(id).map(|v| Obs::Val(v.0)).unwrap_or(Obs::Err),
             Op::LoadOwned(T::CP, id) => c.load_owned::<CP>(id).map(|v| Obs::Val(v.0)).unwrap_or(Obs::Err),
             Op::LoadOwned(T::RE, id) => c.load_owned::<RE>(id).map(|v| Obs::Val(v.0)).unwrap_or(Obs::Err),
-        Op::LoadOwned(T::RE, id) => c.load_owned::<RE>(id).map(|v| Obs::Val(v.0)).unwrap_or(Obs::Err),
             Op::LoadOwned(T::Dir, id) => c.load_owned::<Directory<A1>>(id).map(|v| obs_ids(v.ids())).unwrap_or(Obs::Err),
             Op::LoadOwned(T::Rec, id) => c.load_owned::<RecursiveDirectory<A1>>(id).map(|v| obs_ids(v.ids())).unwrap_or(Obs::Err),
             Op::GetCached(T::A1, id) => c.get_cached::<A1>(id).map(|h| Obs::Val(h.read().0.clone())).unwrap_or(Obs::Absent),
             Op::GetCached(T::A2, id) => c.get_cached::<A2>(id).map(|h| Obs::Val(h.read().0.clone())).unwrap_or(Obs::Absent),
             Op::GetCached(T::CP, id) => c.get_cached::<CP>(id).map(|h| Obs::Val(h.read().0.clone())).unwrap_or(Obs::Absent),
             Op::GetCached(T::RE, id) => c.get_cached::<RE>(id).map(|h| Obs::Val(h.read().0.clone())).unwrap_or(Obs::Absent),
-        Op::GetCached(T::RE, id) => c.get_cached::<RE>(id).map(|h| Obs::Val(h.read().0.clone())).unwrap_or(Obs::Absent),
             Op::GetCached(T::S1, id) => c.get_cached::<S1>(id).map(|h| Obs::Val(h.read().0.clone())).unwrap_or(Obs::Absent),
             Op::GetCached(T::Dir, id) => c.get_cached::<Directory<A1>>(id).map(|h| obs_ids(h.read().ids())).unwrap_or(Obs::Absent),
             Op::GetCached(T::Rec, id) => c.get_cached::<RecursiveDirectory<A1>>(id).map(|h| obs_ids(h.read().ids())).unwrap_or(Obs::Absent),
@@ -362,13 +372,11 @@ macro_rules! direct_apply {
             Op::GetOrInsert(T::A2, id, v) => Obs::Val(c.get_or_insert(id, A2(format!("ins{v}"))).read().0.clone()),
             Op::GetOrInsert(T::CP, id, v) => Obs::Val(c.get_or_insert(id, CP(format!("ins{v}"))).read().0.clone()),
             Op::GetOrInsert(T::RE, id, v) => Obs::Val(c.get_or_insert(id, RE(format!("ins{v}"))).read().0.clone()),
-        Op::GetOrInsert(T::RE, id, v) => Obs::Val(c.get_or_insert(id, RE(format!("ins{v}"))).read().0.clone()),
             Op::GetOrInsert(T::S1, id, v) => Obs::Val(c.get_or_insert(id, S1(format!("ins{v}"))).read().0.clone()),
             Op::Contains(T::A1, id) => Obs::Bool(c.contains::<A1>(id)),
             Op::Contains(T::A2, id) => Obs::Bool(c.contains::<A2>(id)),
             Op::Contains(T::CP, id) => Obs::Bool(c.contains::<CP>(id)),
             Op::Contains(T::RE, id) => Obs::Bool(c.contains::<RE>(id)),
-        Op::Contains(T::RE, id) => Obs::Bool(c.contains::<RE>(id)),
             Op::Contains(T::S1, id) => Obs::Bool(c.contains::<S1>(id)),
             Op::Contains(T::Dir, id) => Obs::Bool(c.contains::<Directory<A1>>(id)),
             Op::Contains(T::Rec, id) => Obs::Bool(c.contains::<RecursiveDirectory<A1>>(id)),
@@ -385,7 +393,6 @@ macro_rules! mut_apply {
             Op::Remove(T::A2, id) => Obs::Bool(c.remove::<A2>(id)),
             Op::Remove(T::CP, id) => Obs::Bool(c.remove::<CP>(id)),
             Op::Remove(T::RE, id) => Obs::Bool(c.remove::<RE>(id)),
-        Op::Remove(T::RE, id) => Obs::Bool(c.remove::<RE>(id)),
             Op::Remove(T::S1, id) => Obs::Bool(c.remove::<S1>(id)),
             Op::Remove(T::Dir, id) => Obs::Bool(c.remove::<Directory<A1>>(id)),
             Op::Remove(T::Rec, id) => Obs::Bool(c.remove::<RecursiveDirectory<A1>>(id)),
@@ -393,7 +400,6 @@ macro_rules! mut_apply {
             Op::Take(T::A2, id) => c.take::<A2>(id).map(|v| Obs::Val(v.0)).unwrap_or(Obs::Absent),
             Op::Take(T::CP, id) => c.take::<CP>(id).map(|v| Obs::Val(v.0)).unwrap_or(Obs::Absent),
             Op::Take(T::RE, id) => c.take::<RE>(id).map(|v| Obs::Val(v.0)).unwrap_or(Obs::Absent),
-        Op::Take(T::RE, id) => c.take::<RE>(id).map(|v| Obs::Val(v.0)).unwrap_or(Obs::Absent),
             Op::Take(T::S1, id) => c.take::<S1>(id).map(|v| Obs::Val(v.0)).unwrap_or(Obs::Absent),
             Op::Take(T::Dir, id) => c.take::<Directory<A1>>(id).map(|v| obs_ids(v.ids())).unwrap_or(Obs::Absent),
             Op::Take(T::Rec, id) => c.take::<RecursiveDirectory<A1>>(id).map(|v| obs_ids(v.ids())).unwrap_or(Obs::Absent),
@@ -461,6 +467,9 @@ fn scan_keys(case: &Case) -> Vec<(T, String)> {
                 ids.insert(id.clone());
                 ids.insert(nested_id(id));
             }
+            Op::Notify(id) => {
+                ids.insert(id.clone());
+            }
             Op::Clear => {}
         }
     }
@@ -473,13 +482,118 @@ fn scan_keys(case: &Case) -> Vec<(T, String)> {
     out
 }
 
+/// Sentinel asset of the hot front-ends (its extension keeps it out of the directory listings the model sees).
+#[derive(Debug, Clone, PartialEq, Eq)]
+pub struct Sent(pub String);
+impl Loader<Sent> for TLoader {
+    fn load(content: Cow<[u8]>, _: &str) -> Result<Sent, BoxedError> {
+        Ok(Sent(decode_value(&content)?))
+    }
+}
+impl Asset for Sent {
+    const EXTENSION: &'static str = "sn";
+    type Loader = TLoader;
+}
+const SENTINEL: &str = "zz_sentinel";
+
+/// Announces a change of `<id>.t` and waits until the reloader has processed it: the sentinel's
+/// own change is announced afterwards on the same channel. Bounded by counting round trips.
+fn notify_and_wait(cache: &AssetCache<MemSource>, src: &MemSource, id: &str, version: &mut u32) -> bool {
+    use crate::memsrc::OwnedEntry;
+    let Ok(sent) = cache.load::<Sent>(SENTINEL) else { return false };
+    src.send(&OwnedEntry::File(id.to_string(), "t".to_string()));
+    *version += 1;
+    let want = format!("S{version}");
+    src.tree().put(SENTINEL, "sn", format!("ok:{want}").into_bytes(), Variant::Buffer);
+    src.send(&OwnedEntry::File(SENTINEL.to_string(), "sn".to_string()));
+    for _ in 0..4000 {
+        cache.hot_reload();
+        if sent.read().0 == want {
+            // one more synchronous round trip: reloads of the same batch are finished when it returns
+            cache.hot_reload();
+            return true;
+        }
+        std::thread::yield_now();
+    }
+    false
+}
+
+fn with_cpus<R>(cpus: u8, f: impl FnOnce() -> R) -> R {
+    if cpus == 0 {
+        return f();
+    }
+    let old = crate::procfs::set_cpus(cpus as usize);
+    let r = f();
+    if let Some(old) = &old {
+        crate::procfs::restore_cpus(old);
+    }
+    r
+}
+
 fn run_front(front: Front, case: &Case, out: &mut Outcome) {
     let mut model = Model { case, map: BTreeMap::new() };
     let scan = scan_keys(case);
+    let mut version = 0u32;
     macro_rules! drive {
-        ($cache:expr, $any:expr) => {{
+        ($cache:expr, $any:expr, $notify:expr) => {{
             let mut cache = $cache;
+            macro_rules! probe {
+                ($t:expr, $id:expr) => {{
+                    let c_op = Op::Contains($t, $id.clone());
+                    let g_op = Op::GetCached($t, $id.clone());
+                    if $any {
+                        (any_apply(cache.as_any_cache(), &c_op).unwrap(), any_apply(cache.as_any_cache(), &g_op).unwrap())
+                    } else {
+                        (direct_apply!(&cache, &c_op), direct_apply!(&cache, &g_op))
+                    }
+                }};
+            }
             for (k, op) in case.ops.iter().enumerate() {
+                if let Op::Notify(id) = op {
+                    #[allow(clippy::redundant_closure_call)]
+                    let done: Option<bool> = ($notify)(&cache, id.as_str(), &mut version);
+                    match done {
+                        None => {}
+                        Some(false) => {
+                            out.fail("reload-lost", format!("front-end {front:?}, step {k} {op:?}: the announced change of the sentinel was never applied although hot_reload kept returning"));
+                            return;
+                        }
+                        Some(true) => {
+                            let strict = model.only_plain_entries();
+                            for (t, id) in &scan {
+                                let (c, g) = probe!(*t, id);
+                                let exp = model.map.get(&(*t, id.clone())).cloned();
+                                if strict {
+                                    if c != Obs::Bool(exp.is_some()) || g != exp.clone().unwrap_or(Obs::Absent) {
+                                        out.fail(
+                                            "reload-changed-map",
+                                            format!("front-end {front:?}, step {k} {op:?}: no compound is cached and no file content changed, yet after the reload key ({t:?}, {id:?}) has contains={c:?} get_cached={g:?}, the map model says {exp:?}"),
+                                        );
+                                        return;
+                                    }
+                                } else if c != Obs::Bool(g != Obs::Absent) {
+                                    out.fail("contains-get-cached-disagree", format!("front-end {front:?}, step {k}: key ({t:?}, {id:?}) contains={c:?} get_cached={g:?}"));
+                                    return;
+                                } else {
+                                    // compounds recompute their value from the cache when reloaded (C05's subject):
+                                    // adopt the cache's state and go on
+                                    match g {
+                                        Obs::Absent => {
+                                            model.map.remove(&(*t, id.clone()));
+                                        }
+                                        g => {
+                                            model.map.insert((*t, id.clone()), g);
+                                        }
+                                    }
+                                }
+                            }
+                            if strict {
+                                out.label("notify-strict");
+                            }
+                        }
+                    }
+                    continue;
+                }
                 let exp = model.apply(op);
                 let got = if is_mut(op) {
                     mut_apply!(&mut cache, op)
@@ -499,13 +613,7 @@ fn run_front(front: Front, case: &Case, out: &mut Outcome) {
             // final scan: presence and values of every key equal the model's
             for (t, id) in &scan {
                 let exp = model.map.get(&(*t, id.clone())).cloned();
-                let c_op = Op::Contains(*t, id.clone());
-                let g_op = Op::GetCached(*t, id.clone());
-                let (c, g) = if $any {
-                    (any_apply(cache.as_any_cache(), &c_op).unwrap(), any_apply(cache.as_any_cache(), &g_op).unwrap())
-                } else {
-                    (direct_apply!(&cache, &c_op), direct_apply!(&cache, &g_op))
-                };
+                let (c, g) = probe!(*t, id);
                 if c != Obs::Bool(exp.is_some()) || g != exp.clone().unwrap_or(Obs::Absent) {
                     out.fail(
                         "final-scan-mismatch",
@@ -516,19 +624,33 @@ fn run_front(front: Front, case: &Case, out: &mut Outcome) {
             }
         }};
     }
+    fn no_notify<C>(_: &C, _: &str, _: &mut u32) -> Option<bool> {
+        None
+    }
+    let cpus = case.cpus;
     match front {
-        Front::Asset => drive!(AssetCache::without_hot_reloading(make_source(case, false)), false),
-        Front::AssetAny => drive!(AssetCache::with_source(make_source(case, false)), true),
-        Front::AssetHot => drive!(AssetCache::with_source(make_source(case, true)), false),
-        Front::AssetHotAny => drive!(AssetCache::with_source(make_source(case, true)), true),
-        Front::Local => drive!(LocalAssetCache::with_source(make_source(case, false)), false),
-        Front::LocalAny => drive!(LocalAssetCache::with_source(make_source(case, false)), true),
+        Front::Asset => drive!(with_cpus(cpus, || AssetCache::without_hot_reloading(make_source(case, false))), false, no_notify),
+        Front::AssetAny => drive!(with_cpus(cpus, || AssetCache::with_source(make_source(case, false))), true, no_notify),
+        Front::AssetHot | Front::AssetHotAny => {
+            let src = make_source(case, true);
+            src.tree().put(SENTINEL, "sn", b"ok:S0".to_vec(), Variant::Buffer);
+            let h = src.handle();
+            let notify = move |c: &AssetCache<MemSource>, id: &str, v: &mut u32| -> Option<bool> { Some(notify_and_wait(c, &h, id, v)) };
+            if matches!(front, Front::AssetHot) {
+                drive!(with_cpus(cpus, || AssetCache::with_source(src)), false, notify)
+            } else {
+                drive!(with_cpus(cpus, || AssetCache::with_source(src)), true, notify)
+            }
+        }
+        Front::Local => drive!(LocalAssetCache::with_source(make_source(case, false)), false, no_notify),
+        Front::LocalAny => drive!(LocalAssetCache::with_source(make_source(case, false)), true, no_notify),
     }
 }
 
 // ---------------------------------------------------------------------------
 
-const IDS: [&str; 9] = ["a", "b", "c", "a_n", "d.a", "d.b", "d.e.a", "d_n", "zz"];
+/// the last three have empty components: ids are keys verbatim, whatever file the source maps them to
+const IDS: [&str; 12] = ["a", "b", "c", "a_n", "d.a", "d.b", "d.e.a", "d_n", "zz", ".a", "a.", "d..a"];
 const DIR_IDS: [&str; 5] = ["", "d", "d.e", "g", "nodir"];
 
 fn t_loadable() -> impl Strategy<Value = T> {
@@ -557,6 +679,7 @@ fn op_strategy() -> impl Strategy<Value = Op> {
         3 => (t_storable(), id_s()).prop_map(|(t, i)| Op::Remove(t, i)),
         3 => (t_storable(), id_s()).prop_map(|(t, i)| Op::Take(t, i)),
         1 => Just(Op::Clear),
+        2 => id_s().prop_map(Op::Notify),
         2 => (dir_t(), dir_s()).prop_map(|(t, i)| Op::Load(t, i)),
         1 => (dir_t(), dir_s()).prop_map(|(t, i)| Op::LoadOwned(t, i)),
         1 => (dir_t(), dir_s()).prop_map(|(t, i)| Op::GetCached(t, i)),
@@ -603,9 +726,10 @@ impl Prop for C02 {
     fn rule(&self) -> String {
         "cases = (source contents: per id valid/undecodable/absent over a small tree with nested and empty directories; op sequence over \
          load, load_owned, get_cached, get_or_insert, contains, remove, take, clear, load_dir, load_rec_dir on types A1, A2 (same extension), \
-         CP (compound loading A1(id), A2(id_n) and peeking S1(id)), S1 (Storable), RE (a compound that get_or_inserts its own key while loading: the first insertion must win)). Every sequence is run on six front-ends \
+         CP (compound loading A1(id), A2(id_n) and peeking S1(id)), S1 (Storable), RE (a compound that get_or_inserts its own key while loading: the first insertion must win)). Every sequence is run on six front-ends, the AssetCache ones constructed under a CPU affinity of 1/2/3/5/6/7/12 CPUs or unchanged (shard count) \
          (AssetCache without reloader, its AnyCache view, AssetCache with a live reloader, its AnyCache view, LocalAssetCache, its AnyCache view) and every return value \
-         plus a final contains/get_cached scan over all ids x types is compared with a BTreeMap reference model. Enumerated part: every sequence up to the length bound over a 2-id alphabet. \
+         plus a final contains/get_cached scan over all ids x types is compared with a BTreeMap reference model. Ids include three with empty components (.a, a., d..a): keys are verbatim. Notify(id): on the two front-ends with a live reloader the source announces a change of id's file \
+         (content unchanged) and the reloads are awaited behind a sentinel; when only plain assets / storables are cached nothing may change (full scan), otherwise the model adopts the cache's state. Enumerated part: every sequence up to the length bound over a 2-id alphabet. \
          non-trivial = a remove/take/clear after an insertion on the same id, or two types inserted under one id; distinct = different canonical JSON"
             .into()
     }
@@ -629,8 +753,9 @@ impl Prop for C02 {
             0..IDS.len(),
         );
         let dirs = prop::collection::vec((0..3usize).prop_map(|i| ["g", "d.e", "h.i"][i].to_string()), 0..3);
-        (files, dirs, prop::collection::vec(op_strategy(), 1..max_len))
-            .prop_map(|(files, dirs, ops)| to_case(&Case { files, dirs, ops }))
+        let cpus = prop_oneof![4 => Just(0u8), 1 => Just(1u8), 1 => Just(2u8), 2 => Just(3u8), 1 => Just(5u8), 1 => Just(6u8), 1 => Just(7u8), 1 => Just(12u8)];
+        (files, dirs, prop::collection::vec(op_strategy(), 1..max_len), cpus)
+            .prop_map(|(files, dirs, ops, cpus)| to_case(&Case { files, dirs, ops, cpus }))
             .boxed()
     }
 
@@ -675,7 +800,7 @@ impl Prop for C02 {
                 }
             }
             for s in &next {
-                out.push(to_case(&Case { files: files.clone(), dirs: vec![], ops: s.clone() }));
+                out.push(to_case(&Case { files: files.clone(), dirs: vec![], ops: s.clone(), cpus: 0 }));
             }
             frontier = next;
         }
@@ -708,11 +833,17 @@ impl Prop for C02 {
         if c.ops.iter().any(|o| matches!(o, Op::Load(T::CP, _) | Op::LoadOwned(T::CP, _))) {
             out.label("compound");
         }
+        if c.cpus != 0 && !c.cpus.is_power_of_two() {
+            out.label("shards-not-power-of-two-cpus");
+        }
+        if c.ops.iter().any(|o| matches!(o, Op::Load(_, id) | Op::GetOrInsert(_, id, _) if id.starts_with('.') || id.ends_with('.') || id.contains(".."))) {
+            out.label("id-with-empty-component");
+        }
         out
     }
 
     fn required_labels(&self) -> Vec<&'static str> {
-        vec!["mutation-after-insert/two-types", "dir-load", "compound"]
+        vec!["mutation-after-insert/two-types", "dir-load", "compound", "notify-strict", "shards-not-power-of-two-cpus", "id-with-empty-component"]
     }
 }
 
@@ -744,7 +875,8 @@ pub fn decode(u: &mut arbitrary::Unstructured) -> arbitrary::Result<Value> {
         let id = IDS[u.int_in_range(0..=IDS.len() - 1)?].to_string();
         let dir = DIR_IDS[u.int_in_range(0..=DIR_IDS.len() - 1)?].to_string();
         let dt = if u.arbitrary()? { T::Dir } else { T::Rec };
-        ops.push(match u.int_in_range(0..=12)? {
+        ops.push(match u.int_in_range(0..=13)? {
+            13 => Op::Notify(id),
             0 | 1 => Op::Load(loadable, id),
             2 => Op::LoadOwned(loadable, id),
             3 => Op::GetCached(t, id),
@@ -758,5 +890,6 @@ pub fn decode(u: &mut arbitrary::Unstructured) -> arbitrary::Result<Value> {
             _ => Op::Take(dt, dir),
         });
     }
-    Ok(to_case(&Case { files, dirs, ops }))
+    let cpus = [0u8, 0, 1, 2, 3, 5, 6, 7][u.int_in_range(0..=7)?];
+    Ok(to_case(&Case { files, dirs, ops, cpus }))
 }
